@@ -110,6 +110,7 @@ type builder struct {
 	targets  *targets
 	labels   map[string]*lblock
 	ret      *retCtx // non-nil inside the spliced body of an immediately invoked literal
+	synth    []*Vertex // assignments made from the return statements of spliced literals
 }
 
 // retCtx says what a return statement means inside the body of an
@@ -136,7 +137,153 @@ func New(fset *token.FileSet, body *ast.BlockStmt, noReturn NoReturn) *Graph {
 		b.edge(b.cur, r, EPlain)
 		b.edge(r, g.Exit, EPlain)
 	}
+	b.thread()
 	return g
+}
+
+// thread removes the infeasible paths a spliced literal would otherwise add:
+// when a return of the literal hands a value of known truth / nil-ness to a
+// variable (`err = nil`, `err = fmt.Errorf(...)`, `err = e` right below
+// `if e != nil`, `ok = true`) and the very next thing the enclosing function
+// does is to test that variable, the assignment continues at the branch the
+// test is known to take.
+func (b *builder) thread() {
+	for _, v := range b.synth {
+		as, _ := v.Node.(*ast.AssignStmt)
+		if as == nil || len(v.Out) != 1 || len(as.Lhs) != len(as.Rhs) {
+			continue
+		}
+		c := v.Out[0].To
+		for hops := 0; c.Kind == KJoin && len(c.Out) == 1 && hops < 64; hops++ {
+			c = c.Out[0].To
+		}
+		if c.Kind != KCond {
+			continue
+		}
+		atom, _ := c.Node.(ast.Expr)
+		for i, l := range as.Lhs {
+			id, ok := l.(*ast.Ident)
+			if !ok || id.Name == "_" {
+				continue
+			}
+			val := knownValue(as.Rhs[i], v)
+			pol := atomPolarity(atom, id.Name)
+			if val == 0 || pol == 0 {
+				continue
+			}
+			want := ETrue
+			if val*pol < 0 {
+				want = EFalse
+			}
+			for _, e := range c.Out {
+				if e.Kind != want {
+					continue
+				}
+				old := v.Out[0]
+				for k, in := range old.To.In {
+					if in == old {
+						old.To.In = append(old.To.In[:k], old.To.In[k+1:]...)
+						break
+					}
+				}
+				old.To = e.To
+				e.To.In = append(e.To.In, old)
+				break
+			}
+			break
+		}
+	}
+}
+
+// knownValue: +1 for a value that is non-nil / true, -1 for nil / false, 0
+// when unknown. v is the vertex of the assignment (for `x = e` right below
+// the true edge of `e != nil`).
+func knownValue(e ast.Expr, v *Vertex) int {
+	for {
+		p, ok := e.(*ast.ParenExpr)
+		if !ok {
+			break
+		}
+		e = p.X
+	}
+	switch x := e.(type) {
+	case *ast.Ident:
+		switch x.Name {
+		case "nil", "false":
+			return -1
+		case "true":
+			return 1
+		}
+		// right below a test of this very identifier
+		p := v
+		for hops := 0; len(p.In) == 1 && hops < 64; hops++ {
+			in := p.In[0]
+			if in.From.Kind == KJoin {
+				p = in.From
+				continue
+			}
+			if in.From.Kind == KCond {
+				if a, ok := in.From.Node.(ast.Expr); ok {
+					pol := atomPolarity(a, x.Name)
+					if pol != 0 {
+						if in.Kind == ETrue {
+							return pol
+						}
+						if in.Kind == EFalse {
+							return -pol
+						}
+					}
+				}
+			}
+			break
+		}
+	case *ast.CallExpr:
+		if sel, ok := x.Fun.(*ast.SelectorExpr); ok {
+			if pkg, ok := sel.X.(*ast.Ident); ok {
+				switch pkg.Name + "." + sel.Sel.Name {
+				case "fmt.Errorf", "errors.New":
+					return 1
+				}
+			}
+		}
+	case *ast.UnaryExpr:
+		if x.Op == token.AND {
+			if _, ok := x.X.(*ast.CompositeLit); ok {
+				return 1
+			}
+		}
+	}
+	return 0
+}
+
+// atomPolarity: +1 when the atom is true exactly if name is non-nil / true
+// (`name`, `name != nil`), -1 for `name == nil`, 0 otherwise.
+func atomPolarity(atom ast.Expr, name string) int {
+	for {
+		p, ok := atom.(*ast.ParenExpr)
+		if !ok {
+			break
+		}
+		atom = p.X
+	}
+	isName := func(e ast.Expr) bool { id, ok := e.(*ast.Ident); return ok && id.Name == name }
+	isNil := func(e ast.Expr) bool { id, ok := e.(*ast.Ident); return ok && id.Name == "nil" }
+	switch x := atom.(type) {
+	case *ast.Ident:
+		if x.Name == name {
+			return 1
+		}
+	case *ast.BinaryExpr:
+		if (isName(x.X) && isNil(x.Y)) || (isNil(x.X) && isName(x.Y)) {
+			switch x.Op {
+			case token.NEQ:
+				return 1
+			case token.EQL:
+				return -1
+			}
+		}
+	}
+	return 0
 }
 
 func (b *builder) newV(k Kind, n ast.Node) *Vertex {
@@ -662,7 +809,8 @@ func (b *builder) spliced(s *ast.ReturnStmt, rc *retCtx) {
 	case rc.assign != nil && len(s.Results) > 0:
 		// the results become the operands of the assignment the literal's
 		// value was used in
-		b.add(KStmt, &ast.AssignStmt{Lhs: rc.assign.Lhs, TokPos: s.Return, Tok: rc.assign.Tok, Rhs: s.Results})
+		v := b.add(KStmt, &ast.AssignStmt{Lhs: rc.assign.Lhs, TokPos: s.Return, Tok: rc.assign.Tok, Rhs: s.Results})
+		b.synth = append(b.synth, v)
 		b.jump(rc.cont)
 	default:
 		for _, r := range s.Results {
